@@ -43,6 +43,7 @@ class Aggregate:
         self.selftest_ok = 0
         self.timeouts = 0
         self.extra = {}
+        self.maxerr = {}
         self.seeds = []
 
     def add(self, res):
@@ -67,6 +68,8 @@ class Aggregate:
         for k, v in st.get('extra', {}).items():
             if isinstance(v, (int, float)):
                 self.extra[k] = self.extra.get(k, 0) + v
+        for k, v in st.get('maxerr', {}).items():
+            self.maxerr[k] = max(self.maxerr.get(k, 0.0), v)
         for k, v in st.get('known_seen', {}).items():
             self.known[k] = self.known.get(k, 0) + v
         if len(self.samples) < 3 and 'run' in res:
@@ -129,6 +132,8 @@ def write(agg, prop, wall, nviol, known_lines):
         'known_findings_seen': agg.known,
         'known_finding_lines': known_lines,
         'extra_counters': agg.extra,
+        'max_observed_error_by_relation': {
+            k: float('%.3g' % v) for k, v in sorted(agg.maxerr.items())},
         'exhaustive': False,
     }
     doc = {
